@@ -45,6 +45,10 @@ static std::vector<std::pair<std::string, Shape>> shapes() {
     v.push_back({"gzip_response", {{0, "GET /z HTTP/1.1\r\nHost: h\r\n\r\n"}, {1, "HTTP/1.1 200 OK\r\nContent-Encoding: gzip\r\nContent-Length: " + std::to_string(z.size()) + "\r\n\r\n" + z}}});
     v.push_back({"byte_at_a_time_headers", {{0, "GET /b HTTP/1.1\r\n"}, {0, "Host: h\r\n"}, {0, "X-Long: " + std::string(200, 'l') + "\r\n"}, {0, " folded\r\n"}, {0, "\r\n"}, {1, "HTTP/1.1 200 OK\r\n"}, {1, "Content-Length: 2\r\n\r\no"}, {1, "k"}}});
     v.push_back({"absolute_uri_invalid_bits", {{0, "GET http://u:p@H.Example:8080/%2e%2e/a%00b?q=%zz HTTP/1.1\r\nHost: other\r\nX-Bad Name: v\r\nNoColonLine\r\n\r\n"}, {1, "HTTP/1.1 200 OK\r\nContent-Length: 0\r\nContent-Length: 0\r\n\r\n"}}});
+    v.push_back({"digest_auth_repeated_headers", {{0, "GET /d HTTP/1.1\r\nHost: h\r\nAuthorization: Digest username=\"u, v\", realm=\"r\", nonce=\"n\", uri=\"/d\", response=\"0\"\r\nX-R: 1\r\nX-R: 2\r\nX-R: 3\r\nCookie: a=1\r\nCookie: b=2\r\n\r\n"}, {1, "HTTP/1.1 200 OK\r\nVary: a\r\nVary: b\r\nContent-Length: 0\r\n\r\n"}}});
+    std::string zz = gz(gz(std::string(2000, 'y')));
+    v.push_back({"two_layer_response", {{0, "GET /zz HTTP/1.1\r\nHost: h\r\n\r\n"}, {1, "HTTP/1.1 200 OK\r\nContent-Encoding: gzip, gzip\r\nTransfer-Encoding: chunked\r\n\r\n" + [&] { char h[16]; snprintf(h, sizeof h, "%zx", zz.size()); return std::string(h); }() + "\r\n" + zz + "\r\n0\r\n\r\n"}}});
+    v.push_back({"http_1_0_keepalive_query", {{0, "GET /q?a=%41&b=%u0042&c=+ HTTP/1.0\r\nHost: h\r\nConnection: keep-alive\r\n\r\n"}, {1, "HTTP/1.0 200 OK\r\nConnection: keep-alive\r\nContent-Length: 1\r\n\r\nx"}}});
     return v;
 }
 
@@ -134,7 +138,7 @@ static std::string lim_text(const LimitCase &c) { std::string s = "limit " + std
 static std::pair<std::string, std::string> run_limit(const LimitCase &lc, bool *limit_hit) {
     vdrv::Config c; c.personality = lc.pers; if (lc.kind != 8) { c.hard = lc.hard; c.soft = lc.hard / 2; } else c.max_tx = lc.hard;
     vdrv::Plan p; vdrv::Options o; o.dump = false; o.keep_data = false;
-    std::string req, res, want; int dir = lc.kind >= 5 && lc.kind <= 7 ? 1 : 0;
+    std::string req, res, want; int dir = (lc.kind >= 5 && lc.kind <= 7) || lc.kind == 9 || lc.kind == 10 || lc.kind == 12 || lc.kind == 15 ? 1 : 0;
     std::string filler(lc.len, 'a'); for (size_t i = 0; i < filler.size(); i += 7) filler[i] = (char)('b' + (i / 7) % 20);
     switch (lc.kind) {
         case 0: want = "GET /" + filler + " HTTP/1.1"; req = want + "\r\nHost: h\r\n\r\n"; break;
@@ -146,6 +150,14 @@ static std::pair<std::string, std::string> run_limit(const LimitCase &lc, bool *
         case 6: want = filler; res = "HTTP/1.1 200 OK\r\nX-Long: " + filler + "\r\nContent-Length: 0\r\n\r\n"; break;
         case 7: { res = "HTTP/1.0 200 OK\r\nX-Fold: start"; want = "start"; for (int i = 0; i < lc.reps; i++) { res += "\r\n " + filler; want += " " + filler; } res += "\r\nContent-Length: 0\r\n\r\n"; break; }
         case 8: { for (int i = 0; i < lc.reps; i++) req += "GET /" + std::to_string(i) + " HTTP/1.1\r\nHost: h\r\n\r\n"; break; }
+        // kinds 9..15: only the retention rule (nothing kept beyond the hard limit after any call) is checked
+        case 9: res = "HTTP/1.1 200 OK\r\nTransfer-Encoding: chunked\r\n\r\n" + std::string(lc.len, '0') + "3\r\nabc\r\n0\r\n\r\n"; break;
+        case 10: res = "HTTP/1.1 200 OK\r\nTransfer-Encoding: chunked\r\n\r\n3\r\nabc\r\n0\r\nX-Trailer: " + filler + "\r\n\r\n"; break;
+        case 11: req = "POST / HTTP/1.1\r\nHost: h\r\nTransfer-Encoding: chunked\r\n\r\n3\r\nabc\r\n0\r\nX-Trailer: " + filler + "\r\n\r\n"; break;
+        case 12: { res = "HTTP/1.1 200 OK\r\n"; for (int i = 0; i < lc.reps; i++) res += "X-Rep: " + filler + "\r\n"; res += "Content-Length: 0\r\n\r\n"; break; }
+        case 13: req = "CONNECT h:443 HTTP/1.1\r\nHost: h:443\r\n\r\n"; break; // the tunnelled bytes (no line end) follow the 2xx answer, see below
+        case 14: req = "GET / HTTP/1.1\r\nHost: h\r\n\r\n" + filler; break; // bytes without a line end behind a complete request
+        case 15: res = "HTTP/1.1 200 OK\r\nContent-Length: 0\r\n\r\n" + filler; break;
     }
     if (dir == 1 && req.empty()) req = "GET / HTTP/1.1\r\nHost: h\r\n\r\n";
     vdrv::Session ss(c, p, o);
@@ -159,13 +171,14 @@ static std::pair<std::string, std::string> run_limit(const LimitCase &lc, bool *
     bool errored = false;
     const std::string &stream = dir == 0 ? req : res;
     if (dir == 1) ss.req(req);
-    for (auto &ch : vdrv::cut_at(stream, lc.cuts)) { const vdrv::Call &cl = dir == 0 ? ss.req(ch) : ss.res(ch); if (cl.rc == HTP_STREAM_ERROR) errored = true; }
+    if (lc.kind == 13) { ss.req(req); ss.res("HTTP/1.1 200 OK\r\n\r\n"); std::string pay = filler; for (auto &ch : vdrv::cut_at(pay, lc.cuts)) if (!ch.empty()) ss.req(ch); }
+    else for (auto &ch : vdrv::cut_at(stream, lc.cuts)) { const vdrv::Call &cl = dir == 0 ? ss.req(ch) : ss.res(ch); if (cl.rc == HTP_STREAM_ERROR) errored = true; }
     size_t ntx_max = 0; for (auto &cl : ss.result().calls) ntx_max = std::max(ntx_max, cl.ntx);
     vdrv::Result &r = ss.finish();
     for (auto &v : r.violations) if (v.rfind("C10:", 0) == 0) return {v.substr(4), "retention monitor: " + v};
     *limit_hit = errored;
     if (lc.kind == 8) { if (ntx_max > (size_t)lc.hard + 1) return {"transactions_over_max_tx_plus_one", std::to_string(ntx_max) + " transactions held with max_tx " + std::to_string(lc.hard)}; if (lc.reps > lc.hard + 1 && !errored) return {"max_tx_not_enforced", std::to_string(lc.reps) + " pipelined requests accepted with max_tx " + std::to_string(lc.hard)}; return {"", ""}; }
-    if (errored) return {"", ""};
+    if (errored || lc.kind >= 9) return {"", ""};
     // no error reported: nothing may have been silently truncated
     bool done = dir == 0 ? ctx.got_req : ctx.got_res;
     if (!done) return {"", ""};
@@ -191,15 +204,15 @@ static void limits() {
     int cases = A.thorough() ? 6000 : 500;
     static const long HARD[] = {16, 32, 64, 100, 255, 256, 1000, 4096, 18000, 65536};
     rcx::run("limits", vc::mix(A.seed * 191 + A.shard), cases, 100, [&]() -> std::optional<rcx::Fail> {
-        LimitCase lc; lc.kind = rcx::range(0, 8); lc.pers = rcx::range(0, 9); lc.hard = HARD[rcx::range(0, 9)]; lc.reps = 1;
+        LimitCase lc; lc.kind = rcx::range(0, 15); lc.pers = rcx::range(0, 9); lc.hard = HARD[rcx::range(0, 9)]; lc.reps = 1;
         if (lc.kind == 8) { lc.hard = rcx::range(1, 64); lc.reps = rcx::range(1, 80); lc.len = 0; }
         else {
             // lengths around the limit (and well above / below)
             int mode = rcx::range(0, 3); long l = mode == 0 ? lc.hard + rcx::range(-40, 40) : mode == 1 ? lc.hard / 2 + rcx::range(-5, 5) : mode == 2 ? lc.hard * 2 + rcx::range(0, 50) : rcx::range(1, 300);
             if (l < 1) l = 1; if (l > 140000) l = 140000; lc.len = (size_t)l;
             if (lc.kind == 2 || lc.kind == 7) { lc.reps = rcx::chance(1, 6) ? rcx::range(20, 60) : rcx::range(1, 5); if (lc.reps > 10 && lc.len < 3000) lc.len = (size_t)rcx::range(3000, 6000); }
-            if (lc.kind == 3) { lc.reps = rcx::chance(1, 3) ? rcx::range(60, 80) : rcx::range(1, 6); if (lc.len > 300) lc.len = 300; }
-            if (lc.kind == 4 && lc.len > 20000) lc.len = 20000;
+            if (lc.kind == 3 || lc.kind == 12) { lc.reps = rcx::chance(1, 3) ? rcx::range(60, 80) : rcx::range(1, 6); if (lc.len > 300) lc.len = 300; }
+            if ((lc.kind == 4 || lc.kind == 9) && lc.len > 20000) lc.len = 20000;
         }
         size_t total = 200 + lc.len * (size_t)std::max(1, lc.reps) + 40 * (size_t)lc.reps; int nc = rcx::range(0, 8); int style = rcx::range(0, 2);
         for (int i = 0; i < nc; i++) lc.cuts.push_back((size_t)rcx::range(1, (int)std::min<size_t>(total, 200000)));
@@ -207,7 +220,7 @@ static void limits() {
         std::sort(lc.cuts.begin(), lc.cuts.end()); lc.cuts.erase(std::unique(lc.cuts.begin(), lc.cuts.end()), lc.cuts.end());
         std::string text = lim_text(lc); vc::set_current_case(text);
         bool hit = false; auto r = run_limit(lc, &hit);
-        if (!rcx::shrinking()) { g_stats.evaluations++; g_stats.cls("limit_cases"); static const char *K[] = {"request_line", "request_header", "request_folded", "request_repeated", "request_chunk_size_line", "status_line", "response_header", "response_folded", "max_tx"}; g_stats.cls(std::string("limit_kind_") + K[lc.kind]); if (hit) { g_stats.cls("limit_actually_reached_error"); g_stats.nt(vc::fnv1a(text)); } g_stats.sample_sparse(text, g_stats.evaluations); }
+        if (!rcx::shrinking()) { g_stats.evaluations++; g_stats.cls("limit_cases"); static const char *K[] = {"request_line", "request_header", "request_folded", "request_repeated", "request_chunk_size_line", "status_line", "response_header", "response_folded", "max_tx", "response_chunk_size_line", "response_trailer", "request_trailer", "response_repeated", "connect_probe", "bytes_behind_request", "bytes_behind_response"}; g_stats.cls(std::string("limit_kind_") + K[lc.kind]); if (hit) { g_stats.cls("limit_actually_reached_error"); g_stats.nt(vc::fnv1a(text)); } g_stats.sample_sparse(text, g_stats.evaluations); }
         if (!r.first.empty()) { std::string sig = "C10:" + r.first; if (A.is_known(sig)) { if (!rcx::shrinking()) g_stats.attributed[sig]++; return {}; } return rcx::Fail{sig, text, r.second}; }
         return {};
     });
